@@ -219,7 +219,9 @@ func (e *Engine) VerifyFunc(fn *ssa.Function, blk *Block, props []string) (err e
 		if blk == nil {
 			continue
 		}
-		for _, cl := range blk.Of("ensures") {
+		// "exit" clauses: asserted at every return over the function's own locals,
+		// not exported to callers
+		for _, cl := range append(append([]*Clause(nil), blk.Of("ensures")...), blk.Of("exit")...) {
 			env := x.ownEnv(r.st)
 			env.res = r.vals
 			for i := 0; i < sig.Results().Len(); i++ {
@@ -359,7 +361,7 @@ func (x *exec) frameGoal(key string, st *State) *Term {
 	var rowT []frameTarget
 	for _, tg := range fi.targets {
 		if tg.keyPrefix != "" {
-			if key == tg.keyPrefix || strings.HasPrefix(key, tg.keyPrefix+"#") {
+			if keyMatches(tg.keyPrefix, key) {
 				return nil
 			}
 			continue
@@ -426,7 +428,7 @@ func (x *exec) noteWrite(s *State, key string, w wtarget) {
 	}
 	for _, tg := range fi.targets {
 		if tg.keyPrefix != "" {
-			if key == tg.keyPrefix || strings.HasPrefix(key, tg.keyPrefix+"#") {
+			if keyMatches(tg.keyPrefix, key) {
 				return
 			}
 			continue
